@@ -375,6 +375,15 @@ fn key_universe(rng: &mut Rng) -> Vec<Vec<u8>> {
         idx.swap(i, j);
     }
     let mut keys: Vec<Vec<u8>> = idx[..n].iter().map(|i| pool[*i].clone()).collect();
+    // one history in five: a key of the maximum length (16 KiB), and often its shorter sibling
+    if rng.chance(1, 5) {
+        keys.push(vec![b'q'; sst::MAX_KEY_LEN]);
+        if rng.chance(1, 2) {
+            let mut k = vec![b'q'; sst::MAX_KEY_LEN - 1];
+            *k.last_mut().unwrap() = b'r';
+            keys.push(k);
+        }
+    }
     keys.sort();
     keys
 }
@@ -383,6 +392,13 @@ fn key_universe(rng: &mut Rng) -> Vec<Vec<u8>> {
 /// byte decremented.  Used for bounds and seek targets so that empty and inverted ranges occur.
 fn near_key(rng: &mut Rng, keys: &[Vec<u8>]) -> Vec<u8> {
     let mut k = rng.pick(keys).clone();
+    if k.len() >= sst::MAX_KEY_LEN {
+        // nothing longer than the longest permitted key
+        if rng.chance(1, 2) {
+            k.pop();
+        }
+        return k;
+    }
     match rng.below(6) {
         0 => {
             k.push(0x00);
@@ -440,7 +456,7 @@ fn gen_prog(rng: &mut Rng, keys: &[Vec<u8>], max_len: u64) -> Vec<Cur> {
 fn gen_vlen(rng: &mut Rng, big_values: bool) -> usize {
     if big_values {
         match rng.below(10) {
-            0 => *rng.pick(&[0usize, EMPTY_VALUE]),
+            0 => *rng.pick(&[0usize, EMPTY_VALUE, EMPTY_VALUE, sst::MAX_VALUE_LEN]),
             1 | 2 => rng.range(8, 40) as usize,
             _ => rng.range(300, 900) as usize,
         }
